@@ -543,9 +543,20 @@ async fn spawn_pipeline_processes(
             }
         };
 
-        let spawn_result = command
+        let spawn_result = match command
             .execute_in_pipeline(pipeline_context, cmd_params)
-            .await?;
+            .await
+        {
+            Ok(spawn_result) => spawn_result,
+            // An error (even a fatal one) raised by a stage running in its own subshell only
+            // ends that stage; report it and carry on with the rest of the pipeline.
+            Err(error) if !run_in_current_shell => {
+                let mut stderr = params.stderr(shell);
+                let _ = shell.display_error(&mut stderr, &error);
+                ExecutionResult::from(error.into_result(shell).exit_code).into()
+            }
+            Err(error) => return Err(error),
+        };
 
         // Update the process group ID if something was spawned.
         if let ExecutionSpawnResult::StartedProcess(child) = &spawn_result {
